@@ -84,7 +84,54 @@ type PBox struct{ ID string }
 
 func (p *PBox) Label() string { return "pbox:" + p.ID }
 
+// named non-struct types with value- and pointer-receiver methods
+type Counter int
+
+func (c Counter) Plus(n int) int { return int(c) + n }
+func (c *Counter) Double() int   { return int(*c) * 2 }
+
+type TagList []string
+
+func (t TagList) First() string { return t[0] }
+func (t *TagList) Count() int   { return len(*t) }
+
+type Dict map[string]string
+
+func (d Dict) Has(k string) bool { _, ok := d[k]; return ok }
+func (d *Dict) Size() int        { return len(*d) }
+
+// a name promoted through two embedded siblings at different depths: Go's selector picks the shallowest
+type Stamp struct {
+	ID  string
+	Seq int
+}
+type Audit struct {
+	Stamp
+	By string
+}
+type Meta struct {
+	ID  string
+	Rev int
+}
+type DocDeepFirst struct { // ID is Meta.ID (depth 1), not Audit.Stamp.ID (depth 2)
+	Audit
+	Meta
+	Title string
+}
+type DocShallowFirst struct {
+	Meta
+	Audit
+	Title string
+}
+
 type Root struct {
+	Hits  Counter
+	PHits *Counter
+	Tags  TagList
+	Dict  Dict
+	DocD  DocDeepFirst
+	DocS  DocShallowFirst
+
 	S string
 	I int
 	B bool
@@ -156,6 +203,13 @@ func (g *Gen) inner() Inner {
 
 func (g *Gen) Root() *Root {
 	r := &Root{S: g.Tok(), I: 41 + g.R.Intn(9), B: true}
+	r.Hits = Counter(20 + g.R.Intn(30))
+	ph := Counter(70 + g.R.Intn(20))
+	r.PHits = &ph
+	r.Tags = TagList{g.Tok(), g.Tok()}
+	r.Dict = Dict{"dk": g.Tok()}
+	r.DocD = DocDeepFirst{Audit: Audit{Stamp: Stamp{ID: g.Tok(), Seq: 3}, By: g.Tok()}, Meta: Meta{ID: g.Tok(), Rev: 4}, Title: g.Tok()}
+	r.DocS = DocShallowFirst{Meta: Meta{ID: g.Tok(), Rev: 5}, Audit: Audit{Stamp: Stamp{ID: g.Tok(), Seq: 6}, By: g.Tok()}, Title: g.Tok()}
 	r.In = g.inner()
 	pin := g.inner()
 	r.PIn = &pin
